@@ -1,10 +1,23 @@
 (* C18 - translate / from_translation / from_scale / orthogonal_projection
    build the stated transforms.  Points are row vectors (x, y, z, 1), as
    fixed by A @ v (Math/ProofsMat.v). *)
-From Coq Require Import Reals List Lia Lra Bool.
-From Desper Require Import Math.Sig Math.Spec Math.RInst Math.RLemmas Math.MathGen.
+From Coq Require Import Reals List Lia Lra Bool Psatz Nsatz.
+From Desper Require Import Math.Sig Math.Spec Math.RInst Math.RLemmas Math.MathGen
+  Math.ProofsNorm.
 Import ListNotations.
 Local Open Scope R_scope.
+
+(* name two different roots of the goal *)
+Ltac unify_roots rta rtb :=
+  repeat match goal with
+         | |- context [sqrt ?e] =>
+             lazymatch e with context [sqrt _] => fail | _ => idtac end;
+             let b1 := eval cbv delta [rta] in rta in
+             let b2 := eval cbv delta [rtb] in rtb in
+             first [ match b1 with sqrt ?s0 => replace e with s0 by ring end; fold rta
+                   | match b2 with sqrt ?s0 => replace e with s0 by ring end; fold rtb ]
+         end.
+
 
 Section R.
 Variable at2 : R -> R -> R.
@@ -74,5 +87,218 @@ Proof.
   assert (r - l <> 0) by lra. assert (t - b <> 0) by lra. assert (f - n <> 0) by lra.
   gsimp. tuple_eq; field; auto.
 Qed.
+
+(* ---- rotation about an axis: Mat4.rotate / from_rotation ------------------ *)
+(* the grid is the Rodrigues matrix (for row vectors) *)
+Lemma Mat4_from_rotation_ok : forall (th : R) (u : V3 R) i j, (i < 4)%nat -> (j < 4)%nat ->
+  m4 (Mat4_from_rotation th u) i j = rodrigues_grid (cos th) (sin th) (v3 u) i j.
+Proof. intros th u i j Hi Hj. dv3 u. lt4 i; lt4 j; gsimp; ring. Qed.
+
+Lemma Mat4_rotate_is_product : forall (A : V16 R) (th : R) (u : V3 R),
+  Mat4_rotate A th u = Mat4_matmul_m A (Mat4_from_rotation th u).
+Proof. intros A th u. dv16 A. dv3 u. gsimp. tuple_eq; ring. Qed.
+
+(* a point p goes to  cos p + sin (u x p) + (1 - cos)(u . p) u *)
+Lemma Mat4_from_rotation_acts : forall (th : R) (u : V3 R) (x y z : R),
+  let p := vecof [x; y; z] in
+  Mat4_matmul_v (Mat4_from_rotation th u) (x, y, z, 1)
+  = (rodrigues (cos th) (sin th) (v3 u) p 0%nat, rodrigues (cos th) (sin th) (v3 u) p 1%nat,
+     rodrigues (cos th) (sin th) (v3 u) p 2%nat, 1).
+Proof. intros th u x y z. dv3 u. gsimp. tuple_eq; ring. Qed.
+
+(* for a unit axis it is a rotation: orthogonal, determinant 1, the axis is fixed *)
+Lemma Mat4_from_rotation_orthogonal : forall (th : R) (u : V3 R),
+  dot 3 (v3 u) (v3 u) = 1 ->
+  Mat4_matmul_m (Mat4_from_rotation th u) (Mat4_transpose (Mat4_from_rotation th u)) = Mat4_new.
+Proof.
+  intros th u Hu. dv3 u. gsimp in Hu. gsimp.
+  pose proof (sin_cos_1 th) as Hcs. set (c := cos th) in *. set (s := sin th) in *.
+  tuple_eq; nsatz.
+Qed.
+
+Lemma Mat4_from_rotation_axis : forall (th : R) (x y z : R),
+  x * x + y * y + z * z = 1 ->
+  Mat4_matmul_v (Mat4_from_rotation th (x, y, z)) (x, y, z, 1) = (x, y, z, 1).
+Proof.
+  intros th x y z Hu. gsimp.
+  set (c := cos th) in *. set (s := sin th) in *.
+  tuple_eq; nsatz.
+Qed.
+
+Lemma Mat4_from_rotation_det : forall (th : R) (u : V3 R),
+  dot 3 (v3 u) (v3 u) = 1 -> det 4 (m4 (Mat4_from_rotation th u)) = 1.
+Proof.
+  intros th u Hu. dv3 u. gsimp in Hu. gsimp.
+  pose proof (sin_cos_1 th) as Hcs. set (c := cos th) in *. set (s := sin th) in *.
+  nsatz.
+Qed.
+
+(* angle 0 is the identity *)
+Lemma Mat4_from_rotation_zero : forall u : V3 R, Mat4_from_rotation 0 u = Mat4_new.
+Proof. intros u. dv3 u. gsimp. rewrite cos_0, sin_0. tuple_eq; ring. Qed.
+
+(* the assert of the code: every entry of the axis lies in [-1, 1] *)
+Lemma Mat4_rotate_pre : forall (A : V16 R) (th : R) (u : V3 R),
+  Mat4_rotate_p A th u = true <-> (forall i, (i < 3)%nat -> Rabs (v3 u i) <= 1).
+Proof.
+  intros A th u. dv16 A. dv3 u. gsimp. split.
+  - intros H i Hi. revert H. bcases; intro H; try discriminate;
+      lt3 i; gsimp; unfold Rabs; destruct (Rcase_abs _); lra.
+  - intros H.
+    pose proof (H 0%nat ltac:(lia)) as H0. pose proof (H 1%nat ltac:(lia)) as H1.
+    pose proof (H 2%nat ltac:(lia)) as H2. gsimp in H0. gsimp in H1. gsimp in H2.
+    revert H0 H1 H2. unfold Rabs. repeat destruct (Rcase_abs _); intros; bcases;
+      first [reflexivity | exfalso; lra].
+Qed.
+
+Lemma unit_axis_in_box : forall (u : V3 R) i,
+  dot 3 (v3 u) (v3 u) = 1 -> (i < 3)%nat -> Rabs (v3 u i) <= 1.
+Proof.
+  intros u i Hu Hi. dv3 u. gsimp in Hu.
+  lt3 i; gsimp; unfold Rabs; destruct (Rcase_abs _); nra.
+Qed.
+
+(* ---- perspective_projection: the standard frustum matrix ------------------ *)
+Lemma Mat4_perspective_projection_ok :
+  forall l r b t n f fov : R, l <> r -> b <> t -> n <> f -> n <> 0 ->
+    tan (fov * PI / 360) <> 0 ->
+  forall i j, (i < 4)%nat -> (j < 4)%nat ->
+    m4 (Mat4_perspective_projection l r b t n f fov) i j
+    = perspective_grid (1 / tan (fov * PI / 360)) ((r - l) / (t - b)) n f i j.
+Proof.
+  intros l r b t n f fov Hw Hh Hd Hn Ht i j Hi Hj.
+  assert (r - l <> 0) by lra. assert (t - b <> 0) by lra. assert (f - n <> 0) by lra.
+  assert (Hnt : n * tan (fov * PI / 360) <> 0) by (apply Rmult_integral_contrapositive; auto).
+  lt4 i; lt4 j; gsimp; first [ reflexivity | ring | field; repeat split; auto; intro E; apply Hnt; lra ].
+Qed.
+
+(* the corners of the frustum go to the corners of the clip cube: with
+   h = n tan(fov/2) and a = (r-l)/(t-b), the near corner (a h, h, -n) has clip
+   coordinates (n, n, -n, n) (that is (1, 1, -1) after division by w) and the
+   far corner (a h f/n, h f/n, -f) has (f, f, f, f) *)
+Lemma Mat4_perspective_projection_corners :
+  forall l r b t n f fov : R, l <> r -> b <> t -> n <> f -> n <> 0 ->
+    tan (fov * PI / 360) <> 0 ->
+  let h := n * tan (fov * PI / 360) in
+  let a := (r - l) / (t - b) in
+  Mat4_matmul_v (Mat4_perspective_projection l r b t n f fov) (a * h, h, - n, 1) = (n, n, - n, n)
+  /\ Mat4_matmul_v (Mat4_perspective_projection l r b t n f fov)
+                   (a * h * f / n, h * f / n, - f, 1) = (f, f, f, f).
+Proof.
+  intros l r b t n f fov Hw Hh Hd Hn Ht h a. subst h a.
+  assert (r - l <> 0) by lra. assert (t - b <> 0) by lra. assert (f - n <> 0) by lra.
+  assert (Hnt : n * tan (fov * PI / 360) <> 0) by (apply Rmult_integral_contrapositive; auto).
+  gsimp. split; tuple_eq; field; repeat split; auto; intro E; apply Hnt; lra.
+Qed.
+
+Lemma Mat4_perspective_projection_default : forall l r b t n f : R,
+  Mat4_perspective_projection_fov60 l r b t n f = Mat4_perspective_projection l r b t n f 60.
+Proof. intros. reflexivity. Qed.
+
+(* ---- look_at: the view matrix ---------------------------------------------- *)
+(* look_at(position, target, up) is the view matrix of the frame
+   f = (target - position)^, s = f x up^, u = s x f placed at position
+   (Spec.lookat_grid), whenever target <> position and up <> 0 *)
+Lemma Mat4_look_at_ok : forall (p t up : V3 R), t <> p -> up <> (0, 0, 0) ->
+  forall i j, (i < 4)%nat -> (j < 4)%nat ->
+  m4 (Mat4_look_at p t up) i j = lookat_grid (v3 p) (v3 t) (v3 up) i j.
+Proof.
+  intros [[p0 p1] p2] [[t0 t1] t2] [[u0 u1] u2] Htp Hup i j Hi Hj.
+  assert (Hd : 0 < (t0 - p0) * (t0 - p0) + (t1 - p1) * (t1 - p1) + (t2 - p2) * (t2 - p2)).
+  { apply nz3. intro E. apply Htp. injection E as E0 E1 E2. f_equal; [f_equal|]; lra. }
+  pose proof (nz3 _ _ _ Hup) as Hu.
+  lt4 i; lt4 j; gsimp; try reflexivity;
+    (name_root rta Hrta; same_roots rta; try (name_root rtb Hrtb; unify_roots rta rtb);
+     bcases; try (exfalso; nra); try (field; auto)).
+Qed.
+
+Lemma Mat4_look_at_position : forall (p t up : V3 R), t <> p -> up <> (0, 0, 0) ->
+  Mat4_matmul_v (Mat4_look_at p t up) (v3 p 0%nat, v3 p 1%nat, v3 p 2%nat, 1) = (0, 0, 0, 1).
+Proof.
+  intros [[p0 p1] p2] [[t0 t1] t2] [[u0 u1] u2] Htp Hup.
+  assert (Hd : 0 < (t0 - p0) * (t0 - p0) + (t1 - p1) * (t1 - p1) + (t2 - p2) * (t2 - p2)).
+  { apply nz3. intro E. apply Htp. injection E as E0 E1 E2. f_equal; [f_equal|]; lra. }
+  pose proof (nz3 _ _ _ Hup) as Hu.
+  gsimp. name_root rta Hrta. name_root rtb Hrtb.
+  bcases; try (exfalso; nra); tuple_eq; field; auto.
+Qed.
+
+Lemma Mat4_look_at_target : forall (p t up : V3 R), t <> p -> up <> (0, 0, 0) ->
+  Mat4_matmul_v (Mat4_look_at p t up) (v3 t 0%nat, v3 t 1%nat, v3 t 2%nat, 1)
+  = (0, 0, - norm 3 (vsub (v3 t) (v3 p)), 1).
+Proof.
+  intros [[p0 p1] p2] [[t0 t1] t2] [[u0 u1] u2] Htp Hup.
+  assert (Hd : 0 < (t0 - p0) * (t0 - p0) + (t1 - p1) * (t1 - p1) + (t2 - p2) * (t2 - p2)).
+  { apply nz3. intro E. apply Htp. injection E as E0 E1 E2. f_equal; [f_equal|]; lra. }
+  pose proof (nz3 _ _ _ Hup) as Hu.
+  gsimp. name_root rta Hrta. same_roots rta. name_root rtb Hrtb.
+  bcases; try (exfalso; nra); tuple_eq; try (field; auto).
+  match type of Hrta with _ = ?s =>
+    transitivity (- (s / rta)); [field; auto | rewrite <- Hrta; field; auto] end.
+Qed.
+
+(* properties of that frame (textbook level, no code involved) *)
+Lemma dot3_sym : forall a b : vec, dot 3 a b = dot 3 b a.
+Proof. intros. gsimp. ring. Qed.
+Lemma cross_orth_l : forall a b : vec, dot 3 (cross a b) a = 0.
+Proof. intros. gsimp. ring. Qed.
+Lemma cross_orth_r : forall a b : vec, dot 3 (cross a b) b = 0.
+Proof. intros. gsimp. ring. Qed.
+Lemma lagrange : forall a b : vec,
+  dot 3 (cross a b) (cross a b) = dot 3 a a * dot 3 b b - dot 3 a b * dot 3 a b.
+Proof. intros. gsimp. ring. Qed.
+Lemma vnormalize_dot : forall u v : vec, 0 < dot 3 u u ->
+  dot 3 (vnormalize 3 u) v = dot 3 u v / norm 3 u.
+Proof.
+  intros u v H. gsimp in H. gsimp.
+  match goal with |- context [sqrt ?s] =>
+    assert (Hs : 0 < sqrt s) by (apply sqrt_lt_R0; lra); set (k := sqrt s) in * end.
+  field. lra.
+Qed.
+Lemma vnormalize_unit : forall u : vec, 0 < dot 3 u u ->
+  dot 3 (vnormalize 3 u) (vnormalize 3 u) = 1.
+Proof.
+  intros u H. gsimp in H. gsimp.
+  match goal with |- context [sqrt ?s] =>
+    assert (Hs : 0 < sqrt s) by (apply sqrt_lt_R0; lra);
+    assert (E : sqrt s * sqrt s = s) by (apply sqrt_sqrt; lra);
+    set (k := sqrt s) in *;
+    transitivity (s / (k * k)); [field; lra | rewrite <- E; field; lra]
+  end.
+Qed.
+
+(* the frame of look_at: f is a unit vector, s and u are orthogonal to it and
+   to each other - always; s and u are unit vectors when up is perpendicular
+   to the viewing direction (in general |s| = |u| = the sine of the angle
+   between them: the code does not renormalise s) *)
+Lemma lookat_frame : forall p t up : vec,
+  0 < dot 3 (vsub t p) (vsub t p) -> 0 < dot 3 up up ->
+  let f := lookat_f p t in let s := lookat_s p t up in let u := lookat_u p t up in
+  dot 3 f f = 1 /\ dot 3 s f = 0 /\ dot 3 u f = 0 /\ dot 3 s u = 0 /\
+  dot 3 u u = dot 3 s s /\
+  (dot 3 (vsub t p) up = 0 -> dot 3 s s = 1).
+Proof.
+  intros p t up Hd Hu f s u.
+  assert (Hf : dot 3 f f = 1) by (apply vnormalize_unit; exact Hd).
+  assert (Hsf : dot 3 s f = 0) by (apply cross_orth_l).
+  split; [exact Hf|]. split; [exact Hsf|].
+  split; [apply cross_orth_r|].
+  split; [rewrite dot3_sym; apply cross_orth_l|].
+  split.
+  - unfold u, lookat_u. fold s f. rewrite lagrange. rewrite Hf, Hsf. ring.
+  - intros Hperp. unfold s, lookat_s. fold f. rewrite lagrange. rewrite Hf.
+    rewrite (vnormalize_unit up Hu).
+    assert (E : dot 3 f (vnormalize 3 up) = 0).
+    { unfold f, lookat_f. rewrite vnormalize_dot by exact Hd.
+      rewrite dot3_sym, vnormalize_dot by exact Hu. rewrite dot3_sym, Hperp.
+      unfold Rdiv. ring. }
+    rewrite E. ring.
+Qed.
+
+(* what a view matrix does: q |-> ((q - p).s, (q - p).u, -(q - p).f, 1) *)
+Lemma view_grid_acts : forall (s u f p q : vec) j, (j < 4)%nat ->
+  vecmat 4 (vecof [q 0%nat; q 1%nat; q 2%nat; 1]) (view_grid s u f p) j
+  = vecof [dot 3 (vsub q p) s; dot 3 (vsub q p) u; - dot 3 (vsub q p) f; 1] j.
+Proof. intros s u f p q j Hj. lt4 j; gsimp; ring. Qed.
 
 End R.
